@@ -159,6 +159,63 @@ func c11() []*Ob {
 						c.Violation("dom:appendTerm:no-lower", fn.Pos(), "query terms are no longer lower-cased: case-insensitive indexing stores lower-case tokens")
 					}
 				}
+				// the query side lower-cases a term under the sensitivity flag alone: the index side lower-cases
+				// every rune, so any further condition ("only if it has an ASCII capital") leaves terms un-lowered
+				for _, name := range []string{"(*parser.Literal).appendTerm", "parser.newTextTermCaseSensitive"} {
+					fn := c.Fn(name)
+					if fn == nil {
+						continue
+					}
+					for _, l := range c.P.FindLifted(fn, CallSel(Callee("strings.ToLower"))) {
+						extra := 0
+						for _, f := range l.Facts() {
+							isFlag := false
+							switch x := f.Cond.(type) {
+							case *ssa.Parameter:
+								isFlag = strings.Contains(strings.ToLower(x.Name()), "sensitive")
+							case *ssa.UnOp:
+								if _, fname, _, ok := FieldOf(x.X); ok {
+									isFlag = strings.Contains(strings.ToLower(fname), "sensitive")
+								}
+								if g, ok := x.X.(*ssa.Global); ok {
+									isFlag = strings.Contains(strings.ToLower(g.Name()), "sensitive")
+								}
+							}
+							if !isFlag {
+								extra++
+							}
+						}
+						if extra == 0 {
+							c.Site(l.In.Pos(), "%s lower-cases under the sensitivity flag alone", name)
+						} else {
+							c.Violation("dom:"+name+":lower-extra-condition", l.In.Pos(), "%s lower-cases a query term only under %d condition(s) besides the case-sensitivity flag: terms for which the extra test fails (for example capitals outside ASCII) are searched as written while the index holds them lower-cased", name, extra)
+						}
+					}
+				}
+				// index side: every value token of the keyword and path tokenizers goes through the lower-casing helper
+				for _, name := range []string{"(*tokenizer.KeywordTokenizer).Tokenize", "(*tokenizer.PathTokenizer).Tokenize"} {
+					fn := c.Fn(name)
+					if fn == nil {
+						continue
+					}
+					lower := Callee("tokenizer.toLowerIfCaseInsensitive", "tokenizer.toLowerTryInplace")
+					n := 0
+					for _, in := range InstrsIn(fn, FieldStore("frac.MetaToken", "Value")) {
+						n++
+						st := in.(*ssa.Store)
+						if DerivesFrom(st.Val, func(v ssa.Value) bool {
+							cl, ok := v.(ssa.CallInstruction)
+							return ok && lower(cl)
+						}) {
+							c.Site(st.Pos(), "%s emits a value that went through the lower-casing helper", name)
+						} else {
+							c.Violation("prov:"+name+":token-not-lowered", st.Pos(), "%s emits a token value that did not go through the lower-casing helper: in case-insensitive mode the query side asks for the lower-cased form (an in-place lower-casing of a longer slice does not cover it when a rune changes its width)", name)
+						}
+					}
+					if n == 0 {
+						c.Undecided("prov:"+name+":no-tokens", fn.Pos(), "%s no longer stores MetaToken.Value", name)
+					}
+				}
 				for _, name := range []string{"(*tokenizer.TextTokenizer).Tokenize", "tokenizer.toLowerIfCaseInsensitive"} {
 					fn := c.Fn(name)
 					if fn == nil {
